@@ -307,7 +307,7 @@ def oracle_build(fam, force=False):
     drv = os.path.join(VERIF, 'oracle', 'drv_%s.ml' % fam)
     ext = os.path.join(COQ, 'extract', 'Extract_%s.v' % fam)
     out = os.path.join(BIN, 'oracle_' + fam)
-    key = sha(read(drv), *[read(os.path.join(COQ, f)) for f in coq_files()])
+    key = sha(read(drv), read(os.path.join(VERIF, 'oracle', 'zconv.ml')), *[read(os.path.join(COQ, f)) for f in coq_files()])
     stamp = out + '.key'
     if not force and os.path.exists(out) and os.path.exists(stamp) and read(stamp) == key:
         return out
@@ -321,7 +321,7 @@ def oracle_build(fam, force=False):
         shutil.rmtree(gen, ignore_errors=True)
         os.makedirs(gen)
         # re-run the extraction file with cwd=gen so that the .ml/.mli land there
-        p = sh(['coqc', '-Q', COQ, 'Clip', '-w', '-all', '-o', os.path.join(gen, 'x.vo'), ext], cwd=gen, timeout=900)
+        p = sh(['coqc', '-Q', COQ, 'Clip', '-w', '-all', '-o', os.path.join(gen, os.path.basename(ext) + 'o'), ext], cwd=gen, timeout=900)
         if p.returncode != 0:
             raise Infra('extraction failed for %s:\n%s' % (fam, (p.stdout + p.stderr)[-3000:]))
         mls = sorted(glob.glob(os.path.join(gen, '*.ml')))
@@ -329,12 +329,16 @@ def oracle_build(fam, force=False):
             raise Infra('extraction produced no .ml for ' + fam)
         shutil.copy(drv, os.path.join(gen, 'drv.ml'))
         base = [os.path.basename(m)[:-3] for m in mls]
+        extra_ml = []
+        if 'm' in base:
+            shutil.copy(os.path.join(VERIF, 'oracle', 'zconv.ml'), os.path.join(gen, 'zconv.ml'))
+            extra_ml = ['zconv.ml']
         usesfloat = any('Float64' in read(m) or 'Uint63' in read(m) for m in mls)
         cmd = ['ocamlfind', 'ocamlopt', '-O3'] if False else ['ocamlfind', 'ocamlopt']
-        cmd += ['-w', '-a', '-rectypes', '-thread', '-package', 'str,unix' + (',coq-core.kernel' if usesfloat else ''), '-linkpkg']
+        cmd += ['-w', '-a', '-rectypes', '-thread', '-package', 'str,unix,zarith' + (',coq-core.kernel' if usesfloat else ''), '-linkpkg']
         for b in base:
             cmd += [b + '.mli', b + '.ml']
-        cmd += ['drv.ml', '-o', out + '.tmp']
+        cmd += extra_ml + ['drv.ml', '-o', out + '.tmp']
         os.makedirs(BIN, exist_ok=True)
         p = sh(cmd, cwd=gen, timeout=900)
         if p.returncode != 0:
